@@ -247,14 +247,15 @@ func runC17(c *eng.Ctx) {
 		if unmarshalDecl == nil {
 			c.Undecided("Unmarshal not found")
 		}
-		var sw *ast.SwitchStmt
+		// every switch of Unmarshal that dispatches on constant tags (the dispatch may be split into several)
+		var sws []*ast.SwitchStmt
 		ast.Inspect(unmarshalDecl.Body, func(n ast.Node) bool {
-			if s, ok := n.(*ast.SwitchStmt); ok && sw == nil {
-				sw = s
+			if s, ok := n.(*ast.SwitchStmt); ok && s.Tag != nil {
+				sws = append(sws, s)
 			}
 			return true
 		})
-		if sw == nil {
+		if len(sws) == 0 {
 			c.Undecided("Unmarshal has no switch")
 		}
 		resultType := func(n ast.Node) string {
@@ -269,8 +270,13 @@ func runC17(c *eng.Ctx) {
 			})
 			return t
 		}
-		for _, st := range sw.Body.List {
-			cc := st.(*ast.CaseClause)
+		var clauses []*ast.CaseClause
+		for _, sw := range sws {
+			for _, st := range sw.Body.List {
+				clauses = append(clauses, st.(*ast.CaseClause))
+			}
+		}
+		for _, cc := range clauses {
 			for _, te := range cc.List {
 				tag, ok := constString(info, te)
 				if !ok {
@@ -752,22 +758,70 @@ func runC17(c *eng.Ctx) {
 	// ---- determinism of the parser ---------------------------------------------------------------------------------------------
 	c.Rule("PROV", "sql.Parse{every call hands out a statement built by this call}", func() {
 		f := c.Fn("sql.Parse")
-		fromListener := func(v ssa.Value) bool {
-			if k, ok := v.(*ssa.Const); ok && k.IsNil() {
-				return true
-			}
-			ok := false
-			eng.WalkExpr(v, func(x ssa.Value) bool {
-				if cl, isCall := x.(*ssa.Call); isCall {
-					if g := cl.Common().StaticCallee(); g != nil && p.FuncKey(g) == "sql.listener.statement" {
-						ok = true
+		var fromListenerD func(v ssa.Value, depth int) bool
+		fromListenerD = func(v ssa.Value, depth int) bool {
+			switch x := v.(type) {
+			case *ssa.ChangeInterface:
+				return fromListenerD(x.X, depth)
+			case *ssa.ChangeType:
+				return fromListenerD(x.X, depth)
+			case *ssa.UnOp:
+				// a local the value was parked in
+				if a, ok := x.X.(*ssa.Alloc); ok && a.Referrers() != nil {
+					n := 0
+					for _, r := range *a.Referrers() {
+						if st, ok := r.(*ssa.Store); ok && st.Addr == ssa.Value(a) {
+							if u, ok := st.Val.(*ssa.UnOp); ok && u.X == ssa.Value(a) {
+								continue // x = x
+							}
+							n++
+							if depth > 3 || !fromListenerD(st.Val, depth+1) {
+								return false
+							}
+						}
 					}
-					return false // do not look into the call's own operands
+					return n > 0
+				}
+				return false
+			case *ssa.Const:
+				return x.IsNil()
+			case *ssa.Extract:
+				return fromListenerD(x.Tuple, depth)
+			case *ssa.MakeInterface:
+				return fromListenerD(x.X, depth)
+			case *ssa.Phi:
+				for _, e := range x.Edges {
+					if !fromListenerD(e, depth) {
+						return false
+					}
 				}
 				return true
-			})
-			return ok
+			case *ssa.Call:
+				g := x.Common().StaticCallee()
+				if g == nil {
+					return false
+				}
+				if p.FuncKey(g) == "sql.listener.statement" {
+					return true
+				}
+				// a helper of package sql that hands on what the listener built
+				if depth < 3 && strings.HasPrefix(p.FuncKey(g), "sql.") && g.Blocks != nil {
+					n := 0
+					for _, b := range g.Blocks {
+						if r, ok := b.Instrs[len(b.Instrs)-1].(*ssa.Return); ok && len(r.Results) > 0 {
+							n++
+							if !fromListenerD(r.Results[0], depth+1) {
+								return false
+							}
+						}
+					}
+					return n > 0
+				}
+				return false
+			}
+			return false
 		}
+		fromListener := func(v ssa.Value) bool { return fromListenerD(v, 0) }
 		n := 0
 		fns := append([]*ssa.Function{f}, eng.Closures(f)...)
 		for _, fn := range fns {
@@ -784,6 +838,9 @@ func runC17(c *eng.Ctx) {
 						}
 						if !named {
 							continue
+						}
+						if u, ok := x.Val.(*ssa.UnOp); ok && u.X == x.Addr {
+							continue // the result copied onto itself before the deferred calls run
 						}
 						n++
 						c.Check(fromListener(x.Val), fmt.Sprintf("result-store[%d]", n), in, fn,
